@@ -52,6 +52,7 @@ type pController struct {
 	Annots  []pAnnot  `json:"annots"`
 	Methods []pMethod `json:"methods"`
 	NoEmbed bool      `json:"noEmbed,omitempty"` // a plain struct that does NOT embed GleeceController
+	Grouped bool      `json:"grouped,omitempty"` // declared inside a documented `type ( ... )` group
 }
 
 type pField struct {
@@ -85,6 +86,9 @@ type pConfig struct {
 	PackageName     string     `json:"packageName"`
 	Globs           []string   `json:"globs"`
 	Raw             string     `json:"raw,omitempty"` // when set: the config file text, verbatim
+	EnumValidator   bool       `json:"generateEnumValidator,omitempty"`    // experimentalConfig.generateEnumValidator
+	TopLevelEnum    bool       `json:"validateTopLevelOnlyEnum,omitempty"` // experimentalConfig.validateTopLevelOnlyEnum
+	ValidateResp    bool       `json:"validateResponsePayload,omitempty"`  // routesConfig.validateResponsePayload
 }
 
 type pProject struct {
@@ -236,7 +240,17 @@ func writeProject(p pProject, dir string) (map[string]string, error) {
 		for _, l := range docLines(c.Free, c.Annots) {
 			sb.WriteString(ind + l + "\n")
 		}
-		if c.NoEmbed {
+		if c.Grouped && !c.NoEmbed {
+			// a documented group whose member carries its own doc comment (the member's comment is the one that counts)
+			var gb strings.Builder
+			gb.WriteString(ind + "// Declarations of the " + c.Name + " group\n" + ind + "type (\n")
+			for _, l := range strings.Split(strings.TrimRight(sb.String(), "\n"), "\n") {
+				gb.WriteString("\t" + l + "\n")
+			}
+			gb.WriteString(ind + "\t" + c.Name + " struct {\n" + ind + "\t\truntime.GleeceController\n" + ind + "\t}\n" + ind + ")\n")
+			sb.Reset()
+			sb.WriteString(gb.String())
+		} else if c.NoEmbed {
 			sb.WriteString(ind + "type " + c.Name + " struct {\n" + ind + "\tX int\n" + ind + "}\n")
 		} else {
 			sb.WriteString(ind + "type " + c.Name + " struct {\n" + ind + "\truntime.GleeceController\n" + ind + "}\n")
@@ -387,6 +401,12 @@ func configText(c pConfig) string {
 			"authorizationConfig":     map[string]any{"authFileFullPackageName": projModule + "/auth", "enforceSecurityOnAllRoutes": c.Enforce}},
 		"openapiGeneratorConfig": oa,
 	}
+	if c.EnumValidator || c.TopLevelEnum {
+		cfg["experimentalConfig"] = map[string]any{"generateEnumValidator": c.EnumValidator, "validateTopLevelOnlyEnum": c.TopLevelEnum}
+	}
+	if c.ValidateResp {
+		cfg["routesConfig"].(map[string]any)["validateResponsePayload"] = true
+	}
 	b, _ := json.MarshalIndent(cfg, "", "  ")
 	return string(b)
 }
@@ -455,6 +475,8 @@ func entitySpans(p pProject, texts map[string]string) []pSpan {
 	}
 	for _, c := range p.Controllers {
 		if a, b, ok := find(c.Pkg+"/"+c.File, "type "+c.Name+" struct"); ok {
+			out = append(out, pSpan{c.Name, "", c.Pkg + "/" + c.File, a, b})
+		} else if a, b, ok := find(c.Pkg+"/"+c.File, c.Name+" struct"); ok {
 			out = append(out, pSpan{c.Name, "", c.Pkg + "/" + c.File, a, b})
 		}
 		for _, m := range c.Methods {
